@@ -127,7 +127,7 @@ def verify_unit(modname, tier="quick", seed=None, rlimit=None, canaries=True, ta
     for m in LABEL_RE.finditer(text):
         res.labels.append((m.group(1), [x for x in (m.group(2) or "").split(",") if x]))
     res.trusted = scan_trusted(text)
-    rl = rlimit or (30 if tier == "quick" else 60)
+    rl = rlimit or max(getattr(unit, "rlimit", 0), (30 if tier == "quick" else 60))
     r = run_verus(path, rlimit=rl, seed=seed, extra=unit.verus_args)
     res.cmd = r["cmd"]
     b2c = _byte_to_char_fn(text)
